@@ -462,6 +462,12 @@ func checkC12() fw.Check {
 			cases = append(cases, fw.Case{ID: "C12/synack", Run: func(c *fw.Ctx) {
 				runC12Program(c, "synack", "synack", packets.PacketFilterSpec{FilterType: packets.FilterTypeSYNACK}, refSynAck, func(emit func([]byte, string)) { enumSynAck(1, emit) }, true)
 			}})
+			// the spec the SACK runner really passes: FilterTypeSYNACK with the target as source. The documented meaning of
+			// the type does not depend on it: every unfragmented IPv4 TCP segment with SYN and ACK set, from whomever
+			cases = append(cases, fw.Case{ID: "C12/synack-with-source", Run: func(c *fw.Ctx) {
+				spec := packets.PacketFilterSpec{FilterType: packets.FilterTypeSYNACK, FilterConfig: packets.FilterConfig{Src: netip.MustParseAddrPort("198.51.100.7:443")}}
+				runC12Program(c, "synack (source given)", "synack", spec, refSynAck, func(emit func([]byte, string)) { enumSynAck(3, emit) }, true)
+			}})
 			cases = append(cases, fw.Case{ID: "C12/icmp", Run: func(c *fw.Ctx) {
 				runC12Program(c, "icmp", "icmp", packets.PacketFilterSpec{FilterType: packets.FilterTypeICMP}, refICMP, enumICMP, true)
 			}})
